@@ -307,7 +307,9 @@ func (f *Facts) addCSSW(p *AP, v string) {
 	f.CssW[Enc(v)] = out
 }
 
-func (f *Facts) addURL(p *AP, v string) {
+func (f *Facts) addURL(p *AP, v string) { f.addURLd(p, v, 0) }
+
+func (f *Facts) addURLd(p *AP, v string, depth int) {
 	uf, u := ParseLikeValidURL(v)
 	enc := uf
 	enc.Scheme, enc.Norm = Enc(uf.Scheme), Enc(uf.Norm)
@@ -319,6 +321,11 @@ func (f *Facts) addURL(p *AP, v string) {
 	}
 	f.Host[Enc(uf.Norm)] = hostOf(uf.Norm)
 	f.addURLW(uf.Norm)
+	defer func() {
+		if uf.Norm != v && depth < 2 {
+			f.addURLd(p, uf.Norm, depth+1) // what a second pass would consult
+		}
+	}()
 	for _, fid := range p.Schemes[uf.Scheme] {
 		pol, ok := URLPols[fid]
 		if !ok {
@@ -349,7 +356,9 @@ func (f *Facts) addURL(p *AP, v string) {
 	}
 }
 
-func (f *Facts) addCSS(p *AP, v string) {
+func (f *Facts) addCSS(p *AP, v string) { f.addCSSd(p, v, 0) }
+
+func (f *Facts) addCSSd(p *AP, v string, depth int) {
 	cf := DouceurDecls(v)
 	enc := CssFact{Err: cf.Err, Decls: []DeclFact{}}
 	for _, d := range cf.Decls {
@@ -368,7 +377,11 @@ func (f *Facts) addCSS(p *AP, v string) {
 					parts = append(parts, d.P+": "+d.V)
 				}
 			}
-			f.addCSSW(p, strings.Join(parts, "; "))
+			j := strings.Join(parts, "; ")
+			f.addCSSW(p, j)
+			if depth == 0 && j != v {
+				f.addCSSd(p, j, 1) // what a second pass would consult
+			}
 		}
 	}
 }
